@@ -461,8 +461,9 @@ LEVEL_NOTE = ("Test-only (no model, no theorem; the driver answers the constant 
               "is the recorded obligation atomic_ops_locked). The nested-handle theorems are sequential (one program); they are stated "
               "for the increment-store-release order of Array/Map/HashMap, Shared's order (store, increment, release) is proved to give the same heap "
               "in every heap (shared_order_same_heap) and SmartObject's order (increment, release, store) whenever the destination's container "
-              "survives the assignment (smart_order_same_heap; always for program variables; smart_order_needs_live_container shows the hypothesis "
-              "is needed); which order each operator has is regenerated from its statements (assignment_orders_known); cyclic heaps are covered by the theorems but "
+              "survives the assignment (smart_order_same_heap), which is proved for every destination a path from a program variable resolves to "
+              "(path_destination_keeps_its_container), so every program in any of the three orders gives the Array order's heaps and is safe "
+              "(all_orders_same_programs, nested_programs_safe_every_order; smart_order_needs_live_container shows the hypothesis is needed for unreachable places); which order each operator has is regenerated from its statements (assignment_orders_known); cyclic heaps are covered by the theorems but "
               "never sampled by K (the generator and the tracing oracle refuse cycles). Trusted: atomicity of __sync builtins, mutual exclusion of pthread mutexes, sequential consistency at hook points, the "
               "scheduler harness. There is no hook point between atomicDec and the test of its result, so a decrement whose result is "
               "re-read instead of tested on return is invisible to the scheduler and rests on the free-running runs (ASan, TSan, "
